@@ -86,6 +86,9 @@ func (cw *c20World) waitInFlight(image string, n int) bool {
 	return false
 }
 
+// c20Timeouts counts waits for a response that ran into the time limit
+var c20Timeouts int
+
 type c20Step struct {
 	Op     string `json:"op"` // Req | Release | Cancel (the context of the caller that started the pull in flight is cancelled)
 	Caller string `json:"caller"`
@@ -184,6 +187,7 @@ func runC20Script(w *World, name string, script []c20Step) {
 				case r := <-cw.results:
 					got = append(got, r)
 				case <-timeout:
+					c20Timeouts++
 					goto done
 				}
 			}
@@ -195,7 +199,7 @@ func runC20Script(w *World, name string, script []c20Step) {
 			case <-time.After(2 * time.Millisecond):
 			}
 			al := false
-			var ret []any
+			ret := []any{}
 			sort.Slice(got, func(i, j int) bool { return got[i].caller < got[j].caller })
 			for i, r := range got {
 				for j := i + 1; j < len(got); j++ {
@@ -317,7 +321,21 @@ func init() {
 			if i%a.shards != a.shard {
 				continue
 			}
-			runC20Script(w, fmt.Sprintf("c20-script-%d", i), s)
+			// watchdog: a manager that deadlocks (e.g. a blocked broadcast under the lock) must not hang the driver
+			name := fmt.Sprintf("c20-script-%d", i)
+			done := make(chan struct{})
+			go func() { defer close(done); runC20Script(w, name, s) }()
+			select {
+			case <-done:
+			case <-time.After(30 * time.Second):
+				w.Emit(Event{Actor: "c20", Ev: "C20Hang", Key: "-", Res: "timeout", Args: map[string]any{"scenario": name}})
+				return 0 // the script's goroutines are lost; stop here, the recorded events show the hang
+			}
+			if c20Timeouts >= 12 {
+				// callers keep missing their responses (each costs a 2 s wait): the recorded scripts already show it,
+				// running thousands more would only take hours
+				break
+			}
 		}
 		return 0
 	}
